@@ -8,6 +8,8 @@
 (*   u   the units it reports (exponent map of QuantityAlg)                *)
 (*   e   token of its uncertainty (0 = none)                               *)
 (*   dec / arr / z : Decimal magnitude, array magnitude, value is zero     *)
+(*       (the kind of magnitude is part of what an object reports: a float  *)
+(*       quantity never turns into a Decimal one by being an operand)       *)
 (* Every operation of the action alphabet returns a NEW object (or a plain *)
 (* Python value) and changes nothing; only the in-place methods to /       *)
 (* rebase / abse(x) / rele(x) change an object, and only their receiver.   *)
@@ -93,8 +95,14 @@ PowN(op) == CASE op = "pow2" -> RInt(2) [] op = "np.sqrt" -> R(1, 2) [] op = "np
 
 \* is the call refused (an exception) - by the ideal's reading of the documentation
 \* (X, Y: the operand objects; the machine asks the same question about ITS view of the operands)
+AddUnitsRefused(ux, uy) == Dim(ux) # Dim(uy) \/ ((IsLog(ux) \/ IsLog(uy)) /\ ux # uy)
+\* Decimal and array magnitudes cannot be combined (Decimal(ndarray) / Decimal*ndarray raise TypeError)
+KindClash(X, Y) == (X.dec /\ Y.arr) \/ (X.arr /\ Y.dec)
 RefusesOn(A, X, Y) ==
-  CASE A.op \in {"add", "sub"} -> Dim(X.u) # Dim(Y.u) \/ ((IsLog(X.u) \/ IsLog(Y.u)) /\ X.u # Y.u)
+  IF A.op \in {"add", "sub", "mul", "div"} /\ A.y > 0 /\ KindClash(X, Y) THEN TRUE
+  ELSE IF A.op \in {"pow_pair11", "pow_float1"} /\ X.dec THEN TRUE                    \* Decimal ** float
+  ELSE
+  CASE A.op \in {"add", "sub"} -> AddUnitsRefused(X.u, Y.u)
     [] A.op = "div" -> Y.z
     [] A.op = "mul" -> FALSE
     [] A.op = "eq" -> (~Y.z /\ ~Convertible(Y.u, X.u)) \/ X.dec \/ Y.dec
